@@ -295,3 +295,52 @@ Section Proofs.
     destruct (g_account (extract rules e)); [reflexivity|congruence].
   Qed.
 End Proofs.
+
+(* ---- the compiled AND-list (MatchAndExpr::try_from since /repo cce0c70): the written fields,
+   each once, in the declaration order of RewriteField ---- *)
+From Coq Require Import Permutation Sorted.
+
+Definition rank_le {P} (x y : rewrite_field * P) : Prop := (rf_rank (fst x) <= rf_rank (fst y))%nat.
+
+Lemma and_insert_perm {P} (m : rewrite_field * P) (l : and_list P) : Permutation (m :: l) (and_insert m l).
+Proof.
+  induction l as [|x l IH]; cbn [and_insert]; [reflexivity|].
+  destruct (Nat.leb _ _); [reflexivity|].
+  eapply perm_trans; [apply perm_swap|]. apply perm_skip. exact IH.
+Qed.
+
+Lemma and_compile_perm {P} (a : and_list P) : Permutation a (and_compile a).
+Proof.
+  induction a as [|m a IH]; cbn [and_compile fold_right]; [constructor|].
+  eapply perm_trans; [apply perm_skip; exact IH|]. apply and_insert_perm.
+Qed.
+
+Lemma and_insert_hdrel {P} (y m : rewrite_field * P) (l : and_list P) :
+  rank_le y m -> HdRel rank_le y l -> HdRel rank_le y (and_insert m l).
+Proof.
+  intros Hym Hl. destruct l as [|x l]; cbn [and_insert]; [constructor; exact Hym|].
+  destruct (Nat.leb _ _); constructor; [exact Hym|]. inversion Hl; assumption.
+Qed.
+
+Lemma and_insert_sorted {P} (m : rewrite_field * P) (l : and_list P) :
+  Sorted rank_le l -> Sorted rank_le (and_insert m l).
+Proof.
+  induction l as [|x l IH]; intros Hs; cbn [and_insert]; [repeat constructor|].
+  destruct (Nat.leb (rf_rank (fst m)) (rf_rank (fst x))) eqn:E.
+  - constructor; [exact Hs|]. constructor. apply Nat.leb_le. exact E.
+  - inversion Hs as [|? ? Hs' Hh]; subst. constructor; [apply IH; exact Hs'|].
+    apply and_insert_hdrel; [|exact Hh]. apply Nat.leb_gt in E. unfold rank_le. lia.
+Qed.
+
+Lemma and_compile_sorted {P} (a : and_list P) : Sorted rank_le (and_compile a).
+Proof.
+  induction a as [|m a IH]; cbn [and_compile fold_right]; [constructor|].
+  apply and_insert_sorted. exact IH.
+Qed.
+
+(* compiling changes the order inside the AND-lists only *)
+Lemma compile_rule_fields {P} (r : rule P) :
+  r_pending (rule_compile r) = r_pending r /\ r_payee (rule_compile r) = r_payee r /\
+  r_account (rule_compile r) = r_account r /\ r_conversion (rule_compile r) = r_conversion r /\
+  r_matcher (rule_compile r) = map and_compile (r_matcher r).
+Proof. repeat split. Qed.
